@@ -120,6 +120,14 @@ def build(spec, engine_cls=None, emitter=None, extra_steps=None, extra_topology=
         topo['s%d' % j] = {'log': ('log',)}
         if spec.get('step_flow') == 'layer':      # flow steps without dependencies: one layer
             flow['s%d' % j] = []
+    if spec.get('duck_step'):
+        # a step that is not a Step subclass (it overrides is_step()), listed among the processes
+        from vmon.sensors import LedgerDuck
+        sp = {'sid': 'zduck'}
+        if spec.get('parallel_steps'):
+            sp['_parallel'] = True
+        procs['zduck'] = LedgerDuck(sp)
+        topo['zduck'] = {'log': ('log',)}
     return cls(processes=procs or None, steps=steps or None, flow=flow or None, topology=topo, **kw)
 
 
